@@ -76,7 +76,11 @@ class FnGraph:
                     v = node.left.id
                     cur = st.get(v)
                     if is_none:
+                        if cur == 'T':
+                            return None             # infeasible edge
                         st[v] = 'N'
+                    elif cur == 'N':
+                        return None                 # infeasible edge
                     elif cur == 'TN':
                         st[v] = 'T'
             return st
@@ -87,6 +91,8 @@ class FnGraph:
             n = g.nodes[nid]
             for m, lab in g.succ[nid]:
                 new = transfer(n, state[nid], lab)
+                if new is None:
+                    continue
                 # loop targets rebind
                 if m in state:
                     j = join(state[m], new)
@@ -394,10 +400,10 @@ def eventmap_typestate(rep, idx, rule):
         for d in dom:
             n = g.nodes[d]
             if n.kind == "test":
-                t = ir.norm(ir.from_ast(n.ast, {}))
-                if t[0] == 'cmp' and t[1] in ('not in', 'in') and t[2] == key and t[3] == ir.parse("self._sources"):
+                t, pol = ir.split_neg(ir.norm(ir.from_ast(n.ast, {})))
+                if t[0] == 'cmp' and t[1] == 'in' and t[2] == key and t[3] == ir.parse("self._sources"):
                     # the store must be on the 'absent' side
-                    side = "true" if t[1] == 'not in' else "false"
+                    side = "false" if pol else "true"
                     succ_side = [m for m, lab in g.succ[d] if lab == side]
                     if succ_side and stores[0].id in g.reachable(succ_side) and \
                             stores[0].id not in _reach_without(g, {(d, side)}):
